@@ -87,3 +87,18 @@ pub enum Key {
     GrpDeepLeafv,
     OtherA,
 }
+
+/// A second, independent locale enum living in the same process (an embedded component with its own
+/// translations): the same languages in another order plus one more, so that anything the library
+/// shares between locale enums maps to other positions here.
+pub mod second {
+    leptos_i18n::declare_locales! {
+        path: leptos_i18n,
+        default: "en",
+        locales: ["en", "de", "it", "fr"],
+        en: { k: "k [en]" },
+        de: { k: "k [de]" },
+        it: { k: "k [it]" },
+        fr: { k: "k [fr]" },
+    }
+}
